@@ -32,9 +32,11 @@ Definition update_okb (v : vside) (a : N) : bool :=
   end.
 Definition get_okb (v : vside) (a : N) : bool :=
   negb (isnone (find (vals v) a)) || isnone (find (vtrie v) a).
-Definition remove_okb (v : vside) (a : N) : bool :=
+Definition remove_okb (fx : fixes) (v : vside) (a : N) : bool :=
   match find (vals v) a with
-  | Some x => N.eqb (v_addr x) a && mem (vindex v) a && stat_okb (stat v) && coversb (stat v) x
+  | Some x => (f_remove fx && v_deleted x)
+              || (N.eqb (v_addr x) a && mem (vindex v) a && (negb (f_remove fx) || ascb (vindex v))
+                  && stat_okb (stat v) && coversb (stat v) x)
   | None => true
   end.
 
@@ -53,7 +55,7 @@ Definition good_op (fx : fixes) (s : state) (o : op) : bool :=
   match o with
   | OAddBalance a v => negb (N.eqb a ripemd && Z.eqb v 0)
   | OPrepare _ _ => false
-  | ORemoveValidator a => f_journal fx && remove_okb (sv s) a            (* undone only since fix fe4c1ff *)
+  | ORemoveValidator a => f_journal fx && remove_okb fx (sv s) a            (* undone only since fix fe4c1ff *)
   | ORemoveWithdraws idx => f_journal fx && negb (has_dup idx)
   | OCreateValidator a _ _ _ _ => create_okb fx (sv s) a
   | OUpdateVal a _ _ _ _ _ => update_okb (sv s) a
@@ -112,11 +114,15 @@ Proof.
     split; [now apply N.eqb_eq | split; [assumption | split; [now apply stat_okb_ok | now apply coversb_ok]]].
   - now apply isnone_ok.
 Qed.
-Lemma remove_okb_ok : forall v a, remove_okb v a = true -> remove_ok v a.
+Lemma remove_okb_ok : forall fx v a, remove_okb fx v a = true -> remove_ok fx v a.
 Proof.
-  unfold remove_okb, remove_ok. intros v a H. destruct (find (vals v) a); [|exact I].
-  do 3 (apply andb_true_iff in H; destruct H as [H ?]).
-  split; [now apply N.eqb_eq | split; [assumption | split; [now apply stat_okb_ok | now apply coversb_ok]]].
+  unfold remove_okb, remove_ok. intros fx v a H. destruct (find (vals v) a) as [x|]; [|exact I].
+  apply orb_true_iff in H. destruct H as [H|H].
+  - left. now apply andb_true_iff in H.
+  - right. apply andb_true_iff in H. destruct H as [H Hc]. apply andb_true_iff in H. destruct H as [H Hs].
+    apply andb_true_iff in H. destruct H as [H Ho]. apply andb_true_iff in H. destruct H as [Ha Hi].
+    split; [now apply N.eqb_eq | split; [assumption | split; [|split; [now apply stat_okb_ok | now apply coversb_ok]]]].
+    intros Hr. rewrite Hr in Ho. cbn in Ho. now apply ascb_asc.
 Qed.
 Lemma has_dup_NoDup : forall l, has_dup l = false -> NoDup l.
 Proof.
@@ -292,7 +298,7 @@ Proof.
   - (* RemoveValidator: repaired code only *)
     destruct (f_journal fx) eqn:Efj; [|discriminate Hg]. cbn in Hg.
     destruct (remove_validator fx (sv s) a) as [v1 r] eqn:E. inversion Hs; subst.
-    apply sinv_with_v; auto. pose proof (op_remove_validator_fixed fx (sv s) a Efj (remove_okb_ok _ _ Hg)) as H.
+    apply sinv_with_v; auto. pose proof (op_remove_validator_fixed fx (sv s) a Efj (remove_okb_ok _ _ _ Hg)) as H.
     now rewrite E in H.
   - destruct (get_validator (sv s) a) as [v1 r] eqn:E. inversion Hs; subst.
     apply sinv_with_v; auto. pose proof (op_get_validator (sv s) a (get_okb_ok _ _ Hg)) as H.
@@ -586,20 +592,20 @@ Proof.
   intros d s1 s2 (Ha & Hv & _ & _). unfold restored, finalise; cbn.
   split; [now apply a_finalise_sim | split; [now apply v_finalise_veq | split; reflexivity]].
 Qed.
-Lemma restored_intermediate_root : forall d s1 s2, restored s1 s2 -> restored (intermediate_root d s1) (intermediate_root d s2).
+Lemma restored_intermediate_root : forall fx d s1 s2, restored s1 s2 -> restored (intermediate_root fx d s1) (intermediate_root fx d s2).
 Proof.
-  intros d s1 s2 (Ha & Hv & _ & _). unfold restored, intermediate_root; cbn.
+  intros fx d s1 s2 (Ha & Hv & _ & _). unfold restored, intermediate_root; cbn.
   split; [now apply a_intermediate_root_sim | split; [now apply v_intermediate_root_veq | split; reflexivity]].
 Qed.
 
 (* the content of the three tries the roots are hashes of *)
-Theorem restored_tries : forall d s1 s2, restored s1 s2 ->
-  objs_sim (atrie (sa (intermediate_root d s1))) (atrie (sa (intermediate_root d s2))) /\
-  vtrie (sv (intermediate_root d s1)) = vtrie (sv (intermediate_root d s2)) /\
-  sv_index (sv (intermediate_root d s1)) = sv_index (sv (intermediate_root d s2)) /\
-  sv_stat (sv (intermediate_root d s1)) = sv_stat (sv (intermediate_root d s2)) /\
-  sv_queue (sv (intermediate_root d s1)) = sv_queue (sv (intermediate_root d s2)).
+Theorem restored_tries : forall fx d s1 s2, restored s1 s2 ->
+  objs_sim (atrie (sa (intermediate_root fx d s1))) (atrie (sa (intermediate_root fx d s2))) /\
+  vtrie (sv (intermediate_root fx d s1)) = vtrie (sv (intermediate_root fx d s2)) /\
+  sv_index (sv (intermediate_root fx d s1)) = sv_index (sv (intermediate_root fx d s2)) /\
+  sv_stat (sv (intermediate_root fx d s1)) = sv_stat (sv (intermediate_root fx d s2)) /\
+  sv_queue (sv (intermediate_root fx d s1)) = sv_queue (sv (intermediate_root fx d s2)).
 Proof.
-  intros d s1 s2 H. destruct (restored_intermediate_root d _ _ H) as (Ha & Hv & _).
+  intros fx d s1 s2 H. destruct (restored_intermediate_root fx d _ _ H) as (Ha & Hv & _).
   destruct Ha as (_ & _ & _ & Hat & _). destruct Hv as (_ & Hvt & _ & _ & H5 & H6 & H7 & _). auto.
 Qed.
